@@ -71,7 +71,8 @@ def run(tier, seed, replay=None):
         "witnesses (local coordinates of the returned points, direction b-a) are computed in floating point by the harness and are untrusted",
         "a collider's point set is the exact shape expression of the floats handed to its constructor (disk: plane basis computed by the harness from the normal); harness/narrow.py parts() is trusted for that translation",
     ]
-    R.check_proofs(PROOF_FILES)
+    R.check_proofs(PROOF_FILES, build_targets=["theories/Props/C01.vo", "theories/Model/JoltLoopRun.vo",
+                                               "theories/Checker/Narrow.vo"])
     cases = []
     corpus = cm.VERIF / "corpus" / PID
     if replay:
